@@ -24,9 +24,10 @@ def main():
   out.append('## 8. Which checks catch which changes\n')
   out.append('### 8.1 Deliberate breaks (self-test canaries, `./check --selftest <ID>`, quick tier)\n')
   out.append('Every patch in `mutants/<ID>/` is applied to a scratch copy of `/repo`; the quick check run with '
-             '`VERIF_REPO=<scratch>` must exit 1. Results of the last complete pass (per mutant: first monitor '
+             '`VERIF_REPO=<scratch>` must exit 1 (fail-fast). The independently seeded changes of §8.2 are kept '
+             'as `mutants/<ID>/seeded-<k>.diff` too. Results of the last complete pass (per mutant: first monitor '
              'that fired; full table in `notes/selftest_results.json`, break descriptions in `notes/agents/CNN.md`):\n')
-  out.append('| property | mutants | caught | monitors that fired first (count) |')
+  out.append('| property | mutants (deliberate + seeded) | caught | monitors that fired first (count) |')
   out.append('|---|---|---|---|')
   tot = caught = 0
   for pid in sorted(st):
@@ -34,12 +35,13 @@ def main():
     c = sum(r['status'] == 'caught' for r in rows)
     tot += len(rows)
     caught += c
+    nseed = sum(r['mutant'].startswith('seeded-') for r in rows)
     mons = {}
     for r in rows:
       if r.get('first_monitor'):
         mons[r['first_monitor']] = mons.get(r['first_monitor'], 0) + 1
     top = ', '.join(f'{k} ({v})' for k, v in sorted(mons.items(), key=lambda kv: -kv[1])[:6])
-    out.append(f'| {pid} | {len(rows)} | {c} | {top} |')
+    out.append(f'| {pid} | {len(rows) - nseed} + {nseed} | {c} | {top} |')
   out.append(f'| **all** | **{tot}** | **{caught}** | |\n')
   out.append('Mutants that turned out to be *equivalent* for the property they were aimed at were dropped '
              '(reasons in the reports): e.g. `side=\'right\'`→`\'left\'` in continuous interpolants (C17), '
